@@ -96,7 +96,7 @@ def random_scenario(rng: random.Random, c: dict) -> dict:
     hist = c['hist']
     buses = []
     for i in range(nb):
-        buses.append({'name': f'B{i}' if rng.random() > 0.04 else f'_B{i}', 'par': rng.random() < c['p_par'], 'lazy': rng.random() < c['p_lazy'], 'sub': rng.random() < 0.3,
+        buses.append({'name': (f'B{i}' if rng.random() > 0.04 else f'_B{i}') if rng.random() > c.get('p_longname', 0.05) else f'B{i}_' + 'LongServiceBusName' * 9, 'par': rng.random() < c['p_par'], 'lazy': rng.random() < c['p_lazy'], 'sub': rng.random() < 0.3, 'sized': rng.random() < c.get('p_sized', 0.12),
                       'hist': (rng.choice(hist) if isinstance(hist, (list, tuple)) else hist)})
     if nb > 1 and rng.random() < c.get('p_same_name', 0.06):
         # two (or all) buses created under one requested name: the constructor warns and renames the later ones, all stay usable
@@ -690,7 +690,8 @@ def expect_base(rng: random.Random, i: int) -> dict:
     """Event streams on 1-2 buses with simple (non-dispatching) handlers, 1-4 concurrent expect() calls
     with overlapping filters (class / name patterns, include / exclude / deprecated predicate, raising predicates)."""
     nb = rng.choice([1, 1, 2])
-    buses = [{'name': f'B{k}', 'par': rng.random() < 0.25, 'lazy': False, 'hist': None} for k in range(nb)]
+    # (bus names of every legal length: the listener expect() registers is NAMED after the bus, the pattern and a source location)
+    buses = [{'name': f'B{k}' if rng.random() > 0.12 else f'B{k}_' + 'LongServiceBusName' * rng.choice([5, 9, 14]), 'par': rng.random() < 0.25, 'lazy': False, 'hist': None, 'sized': rng.random() < 0.1} for k in range(nb)]
     hs = []
     for b in range(nb):
         for t in range(3):
@@ -834,6 +835,14 @@ def later_scenario(rng: random.Random, i: int) -> dict:
     sc = {'seed': rng.randrange(1 << 30), 'buses': buses, 'fwd': [], 'handlers': hs, 'actors': actors}
     if rng.random() < 0.5:
         sc['loop'] = {'jitter': 1e-7}
+    return sc
+
+
+def strict_warnings_scenario(rng: random.Random, i: int) -> dict:
+    """Ordinary programs run with UserWarning promoted to an error (python -W error / pytest filterwarnings=error): whatever the
+    library chooses to warn about must not turn into a handler's error or change an outcome. Handlers often return exception objects."""
+    sc = random_scenario(rng, cfg(nb=(1, 3), p_fwd=0.25, p_par=0.25, levels=4, actor_await=0.7, p_raise=0.08, p_retexc=0.2, p_same_name=0.0))
+    sc['strict_warnings'] = True
     return sc
 
 
